@@ -1,6 +1,7 @@
 (* C19 - Triangles cover their interior and polylines are the union of their segments.
    Statements only; every proof is `exact <lemma>` from Proofs/Polyline.v / Proofs/Triangle.v. *)
-From EG Require Import Base.Prelude Model.Geometry Model.Line Model.Polyline Proofs.Polyline.
+From EG Require Import Base.Prelude Model.Geometry Model.Line Model.Polyline Model.Triangle Proofs.Polyline Proofs.Triangle.
+From Coq Require Import Sorting.Sorted.
 
 (* ---- polylines --------------------------------------------------------------------------- *)
 
@@ -32,3 +33,85 @@ Example C19_polyline_example :
   polyline_points (PL (P 1 1) [P 0 0; P 3 1; P 3 1; P 0 0])
   = [P 1 1; P 2 1; P 3 2; P 4 2; P 3 2; P 2 1; P 1 1].
 Proof. vm_compute. reflexivity. Qed.
+
+(* ---- filled triangles (Triangle::points(), model: Model/Triangle.v tri_points) ----------------------------
+   Vocabulary (Proofs/Triangle.v):
+     tri_ok t            all six vertex coordinates within +-8192 (2^13): the range in which the unbounded model
+                         and the i32 arithmetic of area_doubled / contains / the bounding box coincide
+     perm3 t u           u has the vertices of t in one of the 6 orders
+     cross o a b         (a - o) x (b - o)
+     in_closed_tri t q   q is on the same side of (or on) all three directed edge lines v1v2, v2v3, v3v1
+     sorted_edge a b     the line from the (y,x)-smaller to the (y,x)-larger of a, b  (what mod.rs:216-236 rasterises)
+     tri_fill_edges t    the Bresenham pixels of the three sorted edges (colinear vertices: of the edge between
+                         the two extreme vertices only)
+     lt_yx a b           a before b in row-major order *)
+
+(* the points do not depend on the order of the vertices: same list, not only same set *)
+Theorem C19_tri_order_independent : forall t u, tri_ok t -> perm3 t u -> tri_points u = tri_points t.
+Proof. intros t u _. apply tri_points_perm. Qed.
+
+Theorem C19_tri_bbox_order_independent : forall t u, perm3 t u -> tri_bounding_box u = tri_bounding_box t.
+Proof. exact bounding_box_perm. Qed.
+
+(* every lattice point of the closed mathematical triangle is covered (non-zero area: no further hypothesis) *)
+Theorem C19_tri_covers_interior : forall t q, tri_ok t -> area_doubled t <> 0 ->
+  in_closed_tri t q -> In q (tri_points t).
+Proof. exact covers_interior_nondeg. Qed.
+
+(* colinear / coincident vertices: the closed triangle is the segment between the extreme vertices
+   (in_closed_tri alone holds on the whole line through them, hence the bounding box) *)
+Theorem C19_tri_covers_interior_degenerate : forall t q, tri_ok t -> area_doubled t = 0 ->
+  in_closed_tri t q -> contains (tri_bounding_box t) q = true -> In q (tri_points t).
+Proof. exact covers_interior_deg. Qed.
+
+(* the Bresenham lines between the sorted vertices are part of the fill *)
+Theorem C19_tri_contains_edges : forall t p, tri_ok t -> In p (tri_fill_edges t) -> In p (tri_points t).
+Proof. exact fill_edges_in_points. Qed.
+
+(* ... and for a non-degenerate triangle these are the sorted edges between ANY two of its vertices *)
+Theorem C19_tri_contains_sorted_edge : forall t u p, tri_ok t -> perm3 t u -> area_doubled t <> 0 ->
+  In p (line_points (sorted_edge (v1 u) (v2 u))) -> In p (tri_points t).
+Proof. intros t u p Hok Hp Ha H. apply fill_edges_in_points; [assumption|]. eapply sorted_edge_in_fill_edges; eassumption. Qed.
+
+Theorem C19_sorted_edge_symmetric : forall a b, sorted_edge a b = sorted_edge b a.
+Proof. exact sorted_edge_sym. Qed.
+
+(* two triangles on one edge a-b: the same pixels along that edge, and no gap *)
+Theorem C19_shared_edge_same_pixels : forall a b c d p,
+  tri_ok (T a b c) -> tri_ok (T a b d) -> area_doubled (T a b c) <> 0 -> area_doubled (T a b d) <> 0 ->
+  In p (line_points (sorted_edge a b)) -> In p (tri_points (T a b c)) /\ In p (tri_points (T a b d)).
+Proof. exact shared_edge_same_pixels. Qed.
+
+Theorem C19_shared_edge_no_gap : forall a b c d q,
+  tri_ok (T a b c) -> tri_ok (T a b d) -> area_doubled (T a b c) <> 0 -> area_doubled (T a b d) <> 0 ->
+  in_closed_tri (T a b c) q \/ in_closed_tri (T a b d) q ->
+  In q (tri_points (T a b c)) \/ In q (tri_points (T a b d)).
+Proof. exact shared_edge_no_gap. Qed.
+
+(* row-major order, no point twice, all inside the bounding box *)
+Theorem C19_tri_points_row_major : forall t, tri_ok t -> StronglySorted lt_yx (tri_points t).
+Proof. exact tri_points_row_major. Qed.
+
+Theorem C19_tri_points_in_bbox : forall t q, tri_ok t -> In q (tri_points t) -> contains (tri_bounding_box t) q = true.
+Proof. exact points_in_bbox. Qed.
+
+(* PARTIAL form of tri_within_one_pixel ("every covered point is inside the triangle or within one pixel of an
+   edge"): every covered point lies, in its row, between two Bresenham pixels of the sorted edges; each of those is
+   within half a pixel of its edge (C17_line_half_pixel_euclid / C17_line_within_ends).  The step from there to the
+   Euclidean statement (convexity of the distance to the triangle along a row) is OPEN, see Proofs/Triangle.v. *)
+Theorem C19_tri_within_one_pixel_partial : forall t q, tri_ok t -> In q (tri_points t) ->
+  exists a b, In (P a (py q)) (tri_fill_edges t) /\ In (P b (py q)) (tri_fill_edges t) /\ a <= px q <= b.
+Proof. exact points_between_edge_pixels. Qed.
+
+(* non-vacuity: a triangle with a shallow and a steep edge, given in two orders; a colinear one *)
+Example C19_tri_example :
+  tri_ok (T (P 0 0) (P 5 2) (P 1 4)) /\ area_doubled (T (P 0 0) (P 5 2) (P 1 4)) = 18 /\
+  tri_points (T (P 0 0) (P 5 2) (P 1 4)) =
+    [P 0 0; P 1 0; P 0 1; P 1 1; P 2 1; P 3 1; P 0 2; P 1 2; P 2 2; P 3 2; P 4 2; P 5 2; P 1 3; P 2 3; P 3 3; P 1 4] /\
+  tri_points (T (P 1 4) (P 0 0) (P 5 2)) = tri_points (T (P 0 0) (P 5 2) (P 1 4)) /\
+  in_closed_tri (T (P 0 0) (P 5 2) (P 1 4)) (P 2 2) /\
+  tri_points (T (P 0 0) (P 4 2) (P 2 1)) = [P 0 0; P 1 0; P 2 1; P 3 1; P 4 2].
+Proof.
+  repeat split; try (vm_compute; reflexivity); try (unfold tpoint_ok, tbound; cbn; lia).
+  unfold in_closed_tri, cross. cbn. lia.
+Qed.
